@@ -124,8 +124,8 @@ theorem clear_metadata_spec (s : InScope) (c : Nat) :
 
 -- view_refines_parse — the composition of the lemmas above with the decomposition `PSBT.parse` performs — is proved
 --   in Props/C05X.lean (`view_refines_parse_v0_partial`, `view_refines_parse_v2_partial`).
--- GOAL (not proved): write_to_eq_memory — `View.writeTo` parses to sign-then-compress in memory (correspondence
---   `view.write` and harness predicate).
+-- write_to_eq_memory — what `View.writeTo` / `View.writeToL` write, and that it parses to merge-then-compress in memory —
+--   is proved in Props/C05Y.lean (`write_to_eq_memory_v0/v2_partial`, `write_to_parses_to_memory_v0/v2_partial`).
 
 /-! ### non-vacuity -/
 example : WF { C03.exLegacy with vin := [{ txid := List.replicate 32 7, vout := 1, scriptSig := [], sequence := 0, witness := [] }] }
